@@ -189,6 +189,11 @@ def slice (b : Bytes) (i j : Int) (k : Bytes → Res) : Res :=
   if 0 ≤ i ∧ i ≤ j ∧ j ≤ b.length then k ((b.drop i.toNat).take (j.toNat - i.toNat))
   else panic "slice bounds out of range"
 
+/-- The bounds check of `b[i:j]` on a buffer of length `blen` whose contents do not matter yet (a view
+that is about to be overwritten by `io.ReadFull`): passes the length of the view. -/
+def sliceLen (blen : Nat) (i j : Int) (k : Nat → Res) : Res :=
+  if 0 ≤ i ∧ i ≤ j ∧ j ≤ blen then k (j.toNat - i.toNat) else panic "slice bounds out of range"
+
 /-- `io.ReadFull(r, buf)` with `len(buf) = n`: `io.EOF` if nothing could be read,
 `io.ErrUnexpectedEOF` after a partial read; `n = 0` always succeeds. -/
 def readN (n : Nat) (s : Bytes) (k : Bytes → Bytes → Res) : Res :=
@@ -233,10 +238,11 @@ def readFull (cfg : Cfg) (crc : Bytes → Nat) (seq : Int) (s : Bytes) : Res :=
   if cfg.fullRejects n then Res.err (.badLen n) else
   -- b.PutInt(n); b.Expand(n - bin.Word)
   Res.alloc 8 <| Res.make (cfg.fullExpand n) fun e => Res.alloc (8 + e) <|
+  -- inner := b.Buf[bin.Word:n]  (a view into the 8+e byte buffer, filled by io.ReadFull)
+  Res.sliceLen (8 + e) (cfg.fullInnerLo n) (cfg.fullInnerHi n) fun viewLen =>
+  Res.readN viewLen s1 fun inner s2 =>
+  -- the buffer after PutInt, Expand and the read (built only now: a short stream never gets here)
   let buf0 := leN 4 n ++ leN 4 n ++ zeros e
-  -- inner := b.Buf[bin.Word:n]  (a view into the buffer)
-  Res.slice buf0 (cfg.fullInnerLo n) (cfg.fullInnerHi n) fun innerView =>
-  Res.readN innerView.length s1 fun inner s2 =>
   let buf := buf0.take (cfg.fullInnerLo n).toNat ++ inner ++ buf0.drop (cfg.fullInnerHi n).toNat
   -- serverSeqNo, err := inner.Int()
   if inner.length < 4 then Res.err .ueof else
